@@ -19,7 +19,7 @@ ROOT = os.path.dirname(os.path.dirname(os.path.abspath(__file__)))
 sys.path.insert(0, ROOT)
 from tools import rs2coq2   # noqa
 
-SCR = "/tmp/t2eval"
+SCR = "/tmp/t2eval_%d" % os.getpid()
 TARGETS = ["theories/proofs/Gen2_equiv_chunk.vo", "theories/proofs/Gen2_equiv_framing.vo", "theories/proofs/Gen2_transport.vo", "theories/proofs/Gen2_equiv_flow.vo"]
 
 
@@ -30,6 +30,9 @@ def main():
         pats += sorted(glob.glob(os.path.join(ROOT, "harmless", "*", "patch.diff")))
     if which in ("seeded", "all"):
         pats += sorted(glob.glob(os.path.join(ROOT, "seeded", "*", "patch.diff")))
+    if os.path.isdir(which):
+        # a directory of deliveries: <dir>/*/out/*/patch.diff or <dir>/*/patch.diff
+        pats = sorted(glob.glob(os.path.join(which, "*", "out", "*", "patch.diff")) + glob.glob(os.path.join(which, "*", "patch.diff")))
     only = sys.argv[2].split(",") if len(sys.argv) > 2 else None
     if only:
         pats = [p for p in pats if os.path.basename(os.path.dirname(p)).split("-")[0] in only]
@@ -43,6 +46,8 @@ def main():
         if not any(f in ("src/chunk.rs", "src/body.rs", "src/util.rs", "src/client/flow.rs") for f in files):
             continue
         name = os.path.basename(os.path.dirname(p))
+        if os.path.isdir(which):
+            name = os.path.relpath(os.path.dirname(p), which).replace("/out/", "-").replace("/", "-")
         repo = SCR + "/repo"
         shutil.rmtree(repo, ignore_errors=True)
         os.makedirs(repo)
@@ -59,7 +64,7 @@ def main():
         results[name] = res
         print(name, "translated=%d" % res["translated"], "fallbacks=%s" % ",".join(res["fallbacks"]), "proofs=%s" % ("ok" if res["proofs_ok"] else "FAIL " + " ".join(res["failing"])), flush=True)
     shutil.rmtree(SCR, ignore_errors=True)
-    json.dump(results, open(os.path.join(ROOT, "coverage", "translator2_eval_%s.json" % which), "w"), indent=1, sort_keys=True)
+    json.dump(results, open(os.path.join(ROOT, "coverage", "translator2_eval_%s.json" % os.path.basename(which.rstrip("/"))), "w"), indent=1, sort_keys=True)
 
 
 if __name__ == "__main__":
